@@ -8,7 +8,8 @@ checked for support, exact mass, reproducibility from the seed and (sub-check `s
 Nothing of SafeLearner's own parsing is re-implemented: the expected triple is known because the double was told
 what to answer.
 """
-import copy
+import copy, types, collections
+from collections import abc
 from hypothesis import strategies as st
 
 from vlib.core import Sub
@@ -33,6 +34,9 @@ RULE = ("case = a grid cell (format in A/AP/PM/{'action'}/{'action_prob'}/{'pmf'
         "per-row answer has two elements, or the batch is square (batch size == answer width), or the actions contain 0/1; "
         "distinct = distinct canonical JSON of the case")
 ASSUMPTIONS = [
+    "while HINTED_COL_KWARGS_DICT_ONLY is set (open defect, proposed_fixes/C15/0003) the column-major dict-hinted layout is only generated with dict/OrderedDict kwargs; every other layout gets all five Mapping types",
+    "kwargs payloads are returned as dict, types.MappingProxyType, collections.ChainMap, collections.OrderedDict or a user-defined collections.abc.Mapping (the hint wrapper itself is always a plain dict); learn is expected to receive their items as keyword arguments",
+    "a double that handles batches must be called once per batch with the batched arguments (plus at most SafeLearner's one-row layout probe after the first call); half of them are batch-only and raise on an un-batched row",
     "a SafeLearner built around another SafeLearner unwraps the inner learner and seeds its own generator: its draws equal those of a fresh SafeLearner(learner, seed) whatever the inner wrapper's seed and earlier use (evaluators wrap whatever they are given)",
     "evaluator sub-check: SequentialCB(seed=s) is expected to seed its SafeLearner with s itself (docstring: 'seed: Determine which action is played when learners return an action PMF'), and with CobaContext.store['experiment_seed'] when s is None; with neither, draws are time-seeded and only their validity is checked",
     "PMF entries are fresh float objects (never the same object as an offered action); integer one-hot PMFs such as [1,0] are generated for un-batched calls only, where SafeLearner hands out float copies of the actions 0 and 1",
@@ -55,6 +59,32 @@ N_INTS = 48
 
 class NoBatch(Exception):
     """raised by doubles that cannot handle batched arguments"""
+
+class NoRows(Exception):
+    """raised by batch-only doubles when they are handed a single un-batched row"""
+
+class UserMapping(abc.Mapping):
+    """a small user-defined read-only mapping"""
+    def __init__(self, data): self._data = dict(data)
+    def __getitem__(self, key): return self._data[key]
+    def __iter__(self): return iter(self._data)
+    def __len__(self): return len(self._data)
+    def __repr__(self): return f"UserMapping({self._data!r})"
+
+KWTYPES = ["dict", "mappingproxy", "chainmap", "ordereddict", "usermapping"]
+
+# Open defect (proposed_fixes/C15/0003-*.patch): the column-major pair [{hint: column}, kwargs] is only recognised when the
+# kwargs are a dict (subclass). Until that patch is applied the doubles answer that one layout with dict/OrderedDict kwargs
+# only; set this to False afterwards (the check is then quiet on the patched tree and fires on the unpatched one).
+HINTED_COL_KWARGS_DICT_ONLY = False
+
+def as_mapping(kind, d):
+    """the kwargs payload in one of the Mapping types a learner may legitimately return"""
+    if kind == "mappingproxy": return types.MappingProxyType(d)
+    if kind == "chainmap": return collections.ChainMap(d)
+    if kind == "ordereddict": return collections.OrderedDict(d)
+    if kind == "usermapping": return UserMapping(d)
+    return d
 
 # ----------------------------------------------------------------------------------------- value pools
 POOL = {
@@ -144,7 +174,8 @@ def build(case):
                    "reward": nx(7) / 4}
             rows.append(row); rid += 1
         calls.append(rows)
-    return {"calls": calls, "seed": 1 + nx(1000), "ctxkind": ctxkind}
+    seed = 1 + nx(1000)
+    return {"calls": calls, "seed": seed, "ctxkind": ctxkind, "kwtype": KWTYPES[nx(len(KWTYPES))], "batch_only": nx(2) == 1}
 
 # ----------------------------------------------------------------------------------------- which answers need hints
 def forced_hint(fmt, atype, n, actions):
@@ -160,6 +191,10 @@ class FmtLearner:
     distinct) or by the call counter (single shape), so SafeLearner's layout probe gets a consistent answer."""
     def __init__(self, cell, plan, batch_ok):
         self.cell, self.batch_ok = cell, batch_ok
+        self.kwtype = plan.get("kwtype", "dict")
+        # a batch-aware double is either dual-mode or batch-only (it then refuses single un-batched rows)
+        self.batch_only = bool(batch_ok and cell["shape"] in ("row", "col") and plan.get("batch_only"))
+        self.pcalls, self.lcalls = [], []     # how predict / learn were called: number of rows of a batched call, None for an un-batched call
         self.by_ctx = {} if plan["ctxkind"] != "none" else None
         self.seq = [row for call in plan["calls"] for row in call]
         if self.by_ctx is not None:
@@ -188,20 +223,26 @@ class FmtLearner:
 
     def predict(self, context, actions):
         batched = is_batch(context) or is_batch(actions)
+        if batched and not self.batch_ok:
+            raise NoBatch("this learner does not understand batches")
+        self.pcalls.append(len(context) if batched else None)
         if not batched:
+            if self.batch_only: raise NoRows("this learner only understands batches")
             fmt, a, p, pmf, kw = self._piece(context, actions)
+            if kw is not None: kw = as_mapping(self.kwtype, kw)
             core = {"A": a, "AP": (a, p), "PM": pmf, "hA": {"action": a}, "hAP": {"action_prob": (a, p)}, "hPM": {"pmf": pmf}}[fmt]
             if kw is None: return core
             if fmt == "AP": return (a, p, kw)
             return (core, kw)
-        if not self.batch_ok:
-            raise NoBatch("this learner does not understand batches")
         pieces = [self._piece(x, A) for x, A in zip(context, actions)]
         fmt = pieces[0][0]
         kws = [pc[4] for pc in pieces]
         has_kw = kws[0] is not None
         if self.cell["shape"] == "col":
-            kwcol = {k: [kw[k] for kw in kws] for k in kws[0]} if has_kw else None
+            kwtype = self.kwtype
+            if HINTED_COL_KWARGS_DICT_ONLY and fmt.startswith("h") and kwtype not in ("dict", "ordereddict"):
+                kwtype = "ordereddict"
+            kwcol = as_mapping(kwtype, {k: [kw[k] for kw in kws] for k in kws[0]}) if has_kw else None
             A = [pc[1] for pc in pieces]; P = [pc[2] for pc in pieces]; M = [pc[3] for pc in pieces]
             if fmt == "A":   body = [A]
             if fmt == "AP":  body = [A, P]
@@ -214,6 +255,7 @@ class FmtLearner:
         out = []
         for fmt, a, p, pmf, kw in pieces:
             core = {"A": a, "AP": (a, p), "PM": pmf, "hA": {"action": a}, "hAP": {"action_prob": (a, p)}, "hPM": {"pmf": pmf}}[fmt]
+            if kw is not None: kw = as_mapping(self.kwtype, kw)
             if kw is None: out.append(core)
             elif fmt == "AP": out.append((a, p, kw))
             else: out.append((core, kw))
@@ -224,11 +266,14 @@ class FmtLearner:
         if is_batch(context) or is_batch(action) or is_batch(reward):
             if not self.batch_ok:
                 raise NoBatch("this learner does not understand batches")
+            self.lcalls.append(len(context))
             nrows = len(context)
             probs = list(probability) if probability is not None else [None] * nrows
             for i in range(nrows):
                 self.learned.append((context[i], action[i], reward[i], probs[i], {k: v[i] for k, v in kwargs.items()}))
         else:
+            self.lcalls.append(None)
+            if self.batch_only: raise NoRows("this learner only understands batches")
             self.learned.append((context, action, reward, probability, kwargs))
 
 # ----------------------------------------------------------------------------------------- the oracle
@@ -252,6 +297,7 @@ def wrapped(learner, cell, plan, wrap):
     """what evaluators may be handed: an already wrapped, possibly already used SafeLearner"""
     inner = SafeLearner(learner, wrap["inner_seed"])
     pre_use(inner, cell, plan["calls"][0], wrap["pre"])
+    learner.pcalls.clear()       # the call-pattern oracle looks at the calls made through the wrapper under test only
     return inner
 
 def drive(case, plan, batch_ok, seed, shape=None, wrap=None):
@@ -315,6 +361,21 @@ def check_rows(case, rows, learner):
         require(ctx == rec["plan"]["ctx"] and eq(la, a) and lr == rec["plan"]["reward"] and (lp is None if p is None else eq(lp, p)) and dict(lkw) == wantkw,
                 "learn received something other than (context, chosen action, reward, probability, kwargs) of its row",
                 received=got, want=(rec["plan"]["ctx"], a, rec["plan"]["reward"], p, wantkw), cell=cell, call=rec["call"], row=rec["row"])
+    sizes = {}
+    for rec in rows: sizes[rec["call"]] = sizes.get(rec["call"], 0) + 1
+    sizes = [sizes[c] for c in sorted(sizes)]
+    if cell["shape"] in ("row", "col"):
+        # a learner that handles batches is called once per batch with the batched arguments; the only extra call that is
+        # tolerated is SafeLearner's layout probe: the first row of the first batch, once, right after the first call
+        pc = list(learner.pcalls)
+        if len(pc) == len(sizes) + 1 and pc[1] == 1: del pc[1]
+        require(pc == sizes, "a batch-aware learner was not asked to predict exactly once per batch with the batched arguments (None = un-batched row)",
+                predict_calls=learner.pcalls, batches=sizes, cell=cell, batch_only=learner.batch_only, kwtype=learner.kwtype)
+        require(learner.lcalls == sizes, "a batch-aware learner was not taught exactly once per batch with the batched arguments (None = un-batched row)",
+                learn_calls=learner.lcalls, batches=sizes, cell=cell, batch_only=learner.batch_only)
+    if cell["shape"] == "single":
+        require(learner.pcalls == [None] * len(rows) and learner.lcalls == [None] * len(rows), "an un-batched learner was not called exactly once per interaction",
+                predict_calls=learner.pcalls, learn_calls=learner.lcalls, cell=cell)
     if cell["shape"] == "fallback":
         require(learner.learn_calls >= len(rows), "a learner that cannot batch must be taught row by row", calls=learner.learn_calls, rows=len(rows))
 
@@ -368,7 +429,7 @@ def run_seeds(case):
         for r in range(b):
             rows.append({"ctx": rid, "actions": base, "choice": 0, "p": 1.0, "pmf": [1 / n] * n, "kw": None, "reward": 0.0}); rid += 1
         calls.append(rows)
-    plan = {"calls": calls, "ctxkind": "int"}
+    plan = {"calls": calls, "ctxkind": "int", "batch_only": nx(2) == 1}
     batch_ok = shape in ("row", "col")
     s1, s2 = case["seed1"], case["seed2"]
     full = {"cell": cell, "ints": case["ints"]}
@@ -412,7 +473,7 @@ def ev_plan(case):
     rows = [{"ctx": rid, "actions": base, "choice": 0, "p": 1.0, "pmf": [1 / n] * n, "kw": None, "reward": nx(5) / 4,
              "rwds": [((rid + j) % 3) / 2 for j in range(n)]} for rid in range(EV_ROWS)]
     calls = [rows[i:i + b] for i in range(0, len(rows), b)] if b else [[r] for r in rows]
-    return rows, b, {"calls": calls, "ctxkind": "int"}
+    return rows, b, {"calls": calls, "ctxkind": "int", "batch_only": nx(2) == 1}
 
 def run_evaluator(case):
     """SequentialCB(seed=s) must hand its seed (or, for None, the experiment seed) to the PMF sampler: 'seed: Determine which
